@@ -1,17 +1,17 @@
-\* C01 leg A thorough, 3 replicas (dd(dd(r1,r2),r3)): at most 2 samples per replica on a 5-point
-\* grid (16^3 = 4 096 layouts + 16 identical), readers with at most one Seek (4 targets)
+\* C01 leg A, sample kinds: 2 replicas, every sample a float or a native histogram, at most 2 samples
+\* each on a 3-point grid (19^2 = 361 layouts + 19 identical), readers with at most one Seek
 SPECIFICATION Spec
 CONSTANTS InitPen = 5
-          Grid = {0, 1, 6, 11, 17}
-          NumReps = 3
+          Grid = {0, 1, 7}
+          NumReps = 2
           MaxLen = 2
           Ctr = FALSE
           Starts = {0}
           Incs = {0}
-          Targets = {0, 5, 11, 18}
+          Targets = {1, 7}
           EmitMod = 1
           MaxSeeks = 1
-          Kinds = {"f"}
+          Kinds = {"f", "h"}
 INVARIANTS C01_StrictlyIncreasing C01_FromSomeReplica C01_UnchangedIfIdentical C01_SeekIsSuffix
            C01_FollowsFullStream StepwiseEqualsFunctional BoundedOutput OnlyDoneIsFinal
 CHECK_DEADLOCK FALSE
